@@ -108,3 +108,23 @@ def corridors(rng, N, lengths, PD=1):
     m = {"ns": N, "na": 2, "ne": 1, "next": nxt, "rew": rew, "pk": pk, "PD": 1, "rexp": 0, "v0": [0] * N, "v0exp": 0}
     m["render"] = T.default_render(N, 2, 1, rng, plain=True)
     return m
+
+
+def add_rare(rng, m, pexp=127):
+    """Give the table MDP a rare catastrophic event (probability 2^-pexp, reward of magnitude 2^pexp): see
+    tabular.make_problem.  m's tables become the model-level equivalent (the event's contribution c[s][a] is added to
+    every listed event's reward); actions with identical vectors get identical contributions."""
+    av = m["render"]["avecs"]
+    first = {}
+    for a in range(m["na"]):
+        first.setdefault(tuple(av[a]), a)
+    c = []
+    for s in range(m["ns"]):
+        row = [rng.choice([-3, -2, -1, 1, 2, 3]) for _ in range(m["na"])]
+        row = [row[first[tuple(av[a])]] for a in range(m["na"])]
+        c.append(row)
+    for s in range(m["ns"]):
+        for a in range(m["na"]):
+            m["rew"][s][a] = [r + c[s][a] for r in m["rew"][s][a]]
+    m["rare"] = {"c": c, "pexp": pexp, "next": rng.randrange(m["ns"])}
+    return m
